@@ -132,7 +132,7 @@ func genC14(seed uint64) *Scenario {
 	// lockstep: clients are released together by a barrier (often after an idle period long enough for the
 	// clock to have stopped) and then advance a few statements at a time, so that their clock start-up /
 	// extension code interleaves at statement granularity
-	lockstep := sc.Mode == "fair" && r.chance(1, 3)
+	lockstep := sc.Mode == "fair" && !hugeTimeouts && r.chance(1, 3)
 	var phaseIdle []int64
 	if lockstep {
 		sc.Mode = "lockstep"
@@ -186,7 +186,8 @@ func genC14(seed uint64) *Scenario {
 						d = 2*p + r.i64(28*p)
 					}
 					if r.chance(1, 12) {
-						d = []int64{1, 1000, p / 8, p / 2, p, p + 1}[r.n(6)] // timeouts below the clock period
+						// timeouts below the clock period, and timeouts that have expired before the call starts
+						d = []int64{1, 1000, p / 8, p / 2, p, p + 1, -2, -p, -3 * p, -int64(time.Second), -int64(time.Hour)}[r.n(11)]
 					}
 					op := Op{Kind: heavyKinds[r.n(len(heavyKinds))], Re: addRe(sc, ReSpec{Pat: f.Pat, Opts: f.Opts, Private: c + 1}), In: f.In, TimeoutNs: d, Heavy: true, N: -1, Repl: "<$0>"}
 					if v := pristine(sc.Res[op.Re], &op, defaultOpCap); !v.capped {
